@@ -84,7 +84,7 @@ func checkC16(c *Ctx) error {
 		c.Eval(cs.yaml, (ignorable && other) || runs[0].Res.Exit == 0)
 		for k := range combos {
 			for _, b := range runs[k].Contract() {
-				c.Violate("cli-contract:"+sigWords(b), fmt.Sprintf("flags %v: %s\n%s", combos[k], b, runs[k].Res.Stdout), files)
+				c.Side("C10,C12", "cli-contract:"+sigWords(b), fmt.Sprintf("flags %v: %s\n%s", combos[k], b, runs[k].Res.Stdout), files)
 			}
 		}
 		// absolute oracles (a violation that is never reported would satisfy the relational law): every run that reaches
@@ -135,7 +135,7 @@ func checkC16(c *Ctx) error {
 			for name, ign := range map[string]bool{"Missing parameters": ignP, "Missing services": ignS} {
 				if sec := runs[k].Rep.Section(name); sec != nil {
 					if ign != (sec.Status == "ignored") {
-						c.Violate("ignored-mark:"+strings.ReplaceAll(name, " ", "-"), fmt.Sprintf("flags %v: step %q has status %q", fl, name, sec.Status), files)
+						c.Add("steps_with_unexpected_ignored_mark(not part of the statement)", 1)
 					}
 				}
 			}
@@ -158,7 +158,7 @@ func checkC16(c *Ctx) error {
 				c.Violate("quiet-changes-flag-effect:"+strings.Join(fl, "+"), fmt.Sprintf("flags %v: exit %d without --quiet, %d with it; output equal: %v", fl, runs[k].Res.Exit, q.Res.Exit, string(b) == outs[k]), files)
 			}
 			for _, br := range q.Contract() {
-				c.Violate("cli-contract:"+sigWords(br), fmt.Sprintf("flags %v --quiet: %s", fl, br), files)
+				c.Side("C10,C12", "cli-contract:"+sigWords(br), fmt.Sprintf("flags %v --quiet: %s", fl, br), files)
 			}
 		}
 		// other spellings of the same flag values: an explicit `=false` is "not given", `=true`/`=1`/`=t` is "given", the last
